@@ -240,6 +240,14 @@ class InlineTranslator:
 
         # replace body aggregate with inlined version of the conditions
         rbody = [blit for blit in stm.body if not (blit.ast_type == ASTType.Literal and blit.atom == agg)]
+        # the aggregate is evaluated once per binding of the remaining body: every such variable has to be
+        # part of the tuple, otherwise elements of different bindings collapse after unfolding
+        tuple_vars = set(collect_ast(stm.priority, "Variable"))
+        for term in stm.terms:
+            tuple_vars.update(collect_ast(term, "Variable"))
+        if not global_vars_inside_body(rbody) <= tuple_vars:
+            log.info(f"Cannot inline agregate into {str(stm)} as the tuple does not contain all body variables.")
+            return [stm]
         new_minimizes = []
         max_arity = 0
         for tuple_ in self.minimize_tuples:
